@@ -391,4 +391,17 @@ def N18():  # --max-blob-size on an object store with 1 500 empty loose-object f
         shutil.rmtree(root, ignore_errors=True)
 
 
+def N19():  # --max-blob-size stripped nothing in a SHA-256 repository (64-digit ids on the M lines were never looked up)
+    root = tempfile.mkdtemp(prefix='frrs-recipe-')
+    repo = os.path.join(root, 'repo')
+    try:
+        subprocess.run(['git', 'init', '-q', '--object-format=sha256', '-b', 'main', repo], check=True, env=e2e.GIT_ENV, stdout=subprocess.DEVNULL)
+        sh(repo, 'git config user.name T; git config user.email t@e')
+        commit(repo, {'big': 'x' * 5000, 'small': 'small'}, 'one')
+        rc, _, _ = tool(repo, '--force', '--max-blob-size', '1000')
+        return rc != 0 or 'big' in ls(repo, 'HEAD')
+    finally:
+        shutil.rmtree(root, ignore_errors=True)
+
+
 RECIPES = {k: v for k, v in list(globals().items()) if callable(v) and k[0] in 'FNR' and k[1:].isdigit()}
